@@ -5,6 +5,7 @@ pub mod c01;
 pub mod c02;
 pub mod c03;
 pub mod c04;
+pub mod c08;
 pub mod c11;
 pub mod c12;
 pub mod c14;
@@ -12,7 +13,7 @@ pub mod c15;
 pub mod c17;
 
 pub fn all() -> Vec<Property> {
-    vec![c01::property(), c02::property(), c03::property(), c04::property(), c11::property(), c12::property(), c14::property(), c15::property(), c17::property()]
+    vec![c01::property(), c02::property(), c03::property(), c04::property(), c08::property(), c11::property(), c12::property(), c14::property(), c15::property(), c17::property()]
 }
 
 pub fn get(id: &str) -> Option<Property> {
